@@ -1206,6 +1206,28 @@ fn raw_of(ct: &CKKSCiphertext<Vec<u8>>) -> (usize, usize, Vec<i64>) {
     (ct.log_delta(), ct.log_budget(), ct.data().raw().to_vec())
 }
 
+/// the two ciphertexts denote the same torus elements (their digits may differ by carries)
+fn same_torus(x: &CKKSCiphertext<Vec<u8>>, y: &CKKSCiphertext<Vec<u8>>, b: usize) -> bool {
+    use poulpy_hal::layouts::{ZnxInfos, ZnxView};
+    let (dx, dy) = (x.data(), y.data());
+    if dx.cols() != dy.cols() || dx.size() != dy.size() || dx.n() != dy.n() {
+        return false;
+    }
+    for col in 0..dx.cols() {
+        for i in 0..dx.n() {
+            let mut carry: i128 = 0;
+            for j in (0..dx.size()).rev() {
+                let t = dx.at(col, j)[i] as i128 - dy.at(col, j)[i] as i128 + carry;
+                if t.rem_euclid(1i128 << b) != 0 {
+                    return false;
+                }
+                carry = t >> b;
+            }
+        }
+    }
+    true
+}
+
 fn same_result(x: &anyhow::Result<()>, y: &anyhow::Result<()>) -> bool {
     match (x, y) {
         (Ok(()), Ok(())) => true,
@@ -1330,6 +1352,117 @@ pub fn run_composite_sx(c: &CompCase, sx: &mut Sx) -> Verdict {
                 return fail("differs-from-primitives", format!("metadata / digits differ from the product into a buffer shaped like the destination followed by the in-place sum: composite (log_delta, log_budget) = ({}, {}), primitives ({}, {})", dst1.log_delta(), dst1.log_budget(), dst2.log_delta(), dst2.log_budget()));
             }
             cl.push(if r1.is_ok() { "ok" } else { "error_path" });
+        }
+        12 => {
+            // the un-normalised ("unsafe") forms of add / sub: followed by a normalisation they must give what the
+            // normalising form gives (same result kind, same metadata, same torus elements)
+            use poulpy_ckks::leveled::{CKKSAddOpsUnsafe, CKKSSubOpsUnsafe};
+            use poulpy_core::GLWENormalize;
+            let (a, bb) = (&regs[0], &regs[1]);
+            let u = ((c.seed >> 12) % 20) as usize;
+            let (fam, is_sub, assign) = (u / 4, (u % 4) / 2 == 1, u % 2 == 1);
+            let mk_dst = |sx: &mut Sx| -> Option<CKKSCiphertext<Vec<u8>>> {
+                if assign {
+                    let o = &c.operands[2 % c.operands.len()];
+                    let mut r = fresh_reg(cx, sx, o.0, o.1, o.2, o.3, c.seed ^ (2u64 * 0x9E37))?;
+                    let _ = md.ckks_compact_limbs(&mut r.ct);
+                    Some(r.ct)
+                } else {
+                    Some(alloc(c.dst_limbs))
+                }
+            };
+            let (Some(mut dst1), Some(mut dst2)) = (mk_dst(sx), mk_dst(sx)) else {
+                return Verdict::pass(false, &[name, "skipped:operand_not_encodable"]);
+            };
+            let ptld = (c.operands[0].1 as usize).clamp(8, p.ld_max);
+            let prec = CKKSMeta { log_delta: ptld, log_budget: (c.operands[0].2 as usize).clamp(3, 10) };
+            let (pre, pim) = gen_slots(m, 0.9, c.seed ^ 0x77);
+            let mut rnx = CKKSPlaintextVecRnx::<f64>::alloc(n).unwrap();
+            cx.encoder.encode_reim(&mut rnx, &pre, &pim).unwrap();
+            let mut znx = alloc_pt_vec_znx((n as u32).into(), (b as u32).into(), prec);
+            rnx.to_znx(&mut znx).unwrap();
+            let cst = match c.seed % 3 {
+                0 => CKKSPlaintextCstRnx::<f64>::new(Some(pre[0]), Some(pim[0])),
+                1 => CKKSPlaintextCstRnx::<f64>::new(Some(pre[0]), None),
+                _ => CKKSPlaintextCstRnx::<f64>::new(None, Some(pim[0])),
+            };
+            // ZNX constant aligned to the destination's remaining capacity, as documented for to_znx_at_k
+            let cz = {
+                let (lb, off) = if assign { (dst1.log_budget(), 0) } else { (a.ct.log_budget(), a.ct.effective_k().saturating_sub(dst1.max_k().as_usize())) };
+                lb.checked_sub(off).and_then(|lb| cst.to_znx_at_k((b as u32).into(), lb + prec.log_delta, prec.log_delta).ok())
+            };
+            let Some(cz) = cz else {
+                return Verdict::pass(false, &[name, "skipped:constant_not_encodable"]);
+            };
+            let form = ["ct", "pt_vec_rnx", "pt_vec_znx", "pt_const_rnx", "pt_const_znx"][fam];
+            // (both calls get a roomy scratch: the exact-size windows of these operations are exercised by the programs)
+            let r1: anyhow::Result<()> = unsafe {
+                match (fam, is_sub, assign) {
+                    (0, false, false) => md.ckks_add_into_unsafe(&mut dst1, &a.ct, &bb.ct, sx.roomy()),
+                    (0, false, true) => md.ckks_add_assign_unsafe(&mut dst1, &a.ct, sx.roomy()),
+                    (0, true, false) => md.ckks_sub_into_unsafe(&mut dst1, &a.ct, &bb.ct, sx.roomy()),
+                    (0, true, true) => md.ckks_sub_assign_unsafe(&mut dst1, &a.ct, sx.roomy()),
+                    (1, false, false) => md.ckks_add_pt_vec_rnx_into_unsafe(&mut dst1, &a.ct, &rnx, prec, sx.roomy()),
+                    (1, false, true) => md.ckks_add_pt_vec_rnx_assign_unsafe(&mut dst1, &rnx, prec, sx.roomy()),
+                    (1, true, false) => md.ckks_sub_pt_vec_rnx_into_unsafe(&mut dst1, &a.ct, &rnx, prec, sx.roomy()),
+                    (1, true, true) => md.ckks_sub_pt_vec_rnx_assign_unsafe(&mut dst1, &rnx, prec, sx.roomy()),
+                    (2, false, false) => md.ckks_add_pt_vec_znx_into_unsafe(&mut dst1, &a.ct, &znx, sx.roomy()),
+                    (2, false, true) => md.ckks_add_pt_vec_znx_assign_unsafe(&mut dst1, &znx, sx.roomy()),
+                    (2, true, false) => md.ckks_sub_pt_vec_znx_into_unsafe(&mut dst1, &a.ct, &znx, sx.roomy()),
+                    (2, true, true) => md.ckks_sub_pt_vec_znx_assign_unsafe(&mut dst1, &znx, sx.roomy()),
+                    (3, false, false) => md.ckks_add_pt_const_rnx_into_unsafe(&mut dst1, &a.ct, &cst, prec, sx.roomy()),
+                    (3, false, true) => md.ckks_add_pt_const_rnx_assign_unsafe(&mut dst1, &cst, prec, sx.roomy()),
+                    (3, true, false) => md.ckks_sub_pt_const_rnx_into_unsafe(&mut dst1, &a.ct, &cst, prec, sx.roomy()),
+                    (3, true, true) => md.ckks_sub_pt_const_rnx_assign_unsafe(&mut dst1, &cst, prec, sx.roomy()),
+                    (_, false, false) => md.ckks_add_pt_const_znx_into_unsafe(&mut dst1, &a.ct, &cz, sx.roomy()),
+                    (_, false, true) => md.ckks_add_pt_const_znx_assign_unsafe(&mut dst1, &cz, sx.roomy()),
+                    (_, true, false) => md.ckks_sub_pt_const_znx_into_unsafe(&mut dst1, &a.ct, &cz, sx.roomy()),
+                    (_, true, true) => md.ckks_sub_pt_const_znx_assign_unsafe(&mut dst1, &cz, sx.roomy()),
+                }
+            };
+            if r1.is_ok() {
+                md.glwe_normalize_assign(&mut dst1, sx.roomy());
+            }
+            let r2: anyhow::Result<()> = match (fam, is_sub, assign) {
+                (0, false, false) => md.ckks_add_into(&mut dst2, &a.ct, &bb.ct, sx.roomy()),
+                (0, false, true) => md.ckks_add_assign(&mut dst2, &a.ct, sx.roomy()),
+                (0, true, false) => md.ckks_sub_into(&mut dst2, &a.ct, &bb.ct, sx.roomy()),
+                (0, true, true) => md.ckks_sub_assign(&mut dst2, &a.ct, sx.roomy()),
+                (1, false, false) => md.ckks_add_pt_vec_rnx_into(&mut dst2, &a.ct, &rnx, prec, sx.roomy()),
+                (1, false, true) => md.ckks_add_pt_vec_rnx_assign(&mut dst2, &rnx, prec, sx.roomy()),
+                (1, true, false) => md.ckks_sub_pt_vec_rnx_into(&mut dst2, &a.ct, &rnx, prec, sx.roomy()),
+                (1, true, true) => md.ckks_sub_pt_vec_rnx_assign(&mut dst2, &rnx, prec, sx.roomy()),
+                (2, false, false) => md.ckks_add_pt_vec_znx_into(&mut dst2, &a.ct, &znx, sx.roomy()),
+                (2, false, true) => md.ckks_add_pt_vec_znx_assign(&mut dst2, &znx, sx.roomy()),
+                (2, true, false) => md.ckks_sub_pt_vec_znx_into(&mut dst2, &a.ct, &znx, sx.roomy()),
+                (2, true, true) => md.ckks_sub_pt_vec_znx_assign(&mut dst2, &znx, sx.roomy()),
+                (3, false, false) => md.ckks_add_pt_const_rnx_into(&mut dst2, &a.ct, &cst, prec, sx.roomy()),
+                (3, false, true) => md.ckks_add_pt_const_rnx_assign(&mut dst2, &cst, prec, sx.roomy()),
+                (3, true, false) => md.ckks_sub_pt_const_rnx_into(&mut dst2, &a.ct, &cst, prec, sx.roomy()),
+                (3, true, true) => md.ckks_sub_pt_const_rnx_assign(&mut dst2, &cst, prec, sx.roomy()),
+                (_, false, false) => md.ckks_add_pt_const_znx_into(&mut dst2, &a.ct, &cz, sx.roomy()),
+                (_, false, true) => md.ckks_add_pt_const_znx_assign(&mut dst2, &cz, sx.roomy()),
+                (_, true, false) => md.ckks_sub_pt_const_znx_into(&mut dst2, &a.ct, &cz, sx.roomy()),
+                (_, true, true) => md.ckks_sub_pt_const_znx_assign(&mut dst2, &cz, sx.roomy()),
+            };
+            let what = format!("ckks_{}_{}{}_{}", if is_sub { "sub" } else { "add" }, if fam == 0 { "".to_string() } else { format!("{form}_") }, if assign { "assign" } else { "into" }, "unsafe").replace("__", "_");
+            if !same_result(&r1, &r2) {
+                return fail("unsafe-form-result-differs", format!("{what} returned {:?}, the normalising form {:?}", r1.as_ref().map_err(|e| e.to_string()), r2.as_ref().map_err(|e| e.to_string())));
+            }
+            if r1.is_ok() {
+                if dst1.meta() != dst2.meta() {
+                    return fail("unsafe-form-metadata-differs", format!("{what} leaves metadata {:?}, the normalising form {:?}", dst1.meta(), dst2.meta()));
+                }
+                if !same_torus(&dst1, &dst2, b) {
+                    return fail("unsafe-form-then-normalize-differs", format!("{what} followed by glwe_normalize_assign denotes another ciphertext than the normalising form"));
+                }
+                cl.push(if raw_of(&dst1) == raw_of(&dst2) { "same_digits" } else { "same_torus_value_other_digits" });
+                cl.push("ok");
+            } else {
+                cl.push("error_path");
+            }
+            cl.push(form);
+            cl.push(if assign { "assign" } else { "into" });
         }
         6 => {
             // sum of n ciphertexts: metadata of the chain of additions; slots within the accumulated bound
@@ -1587,4 +1720,4 @@ pub fn run_composite_sx(c: &CompCase, sx: &mut Sx) -> Verdict {
     Verdict::pass(true, &cl)
 }
 
-pub const COMP_KINDS: [&str; 12] = ["ckks_mul_add_ct_into", "ckks_mul_sub_ct_into", "ckks_mul_add_pt_vec_rnx_into", "ckks_mul_sub_pt_vec_rnx_into", "ckks_mul_add_pt_const_rnx_into", "ckks_mul_sub_pt_const_rnx_into", "ckks_add_many", "ckks_dot_product_ct", "ckks_mul_many", "ckks_dot_product_pt_vec_rnx", "ckks_dot_product_pt_const_rnx", "ckks_dot_product_ct(mixed_log_delta)"];
+pub const COMP_KINDS: [&str; 13] = ["ckks_mul_add_ct_into", "ckks_mul_sub_ct_into", "ckks_mul_add_pt_vec_rnx_into", "ckks_mul_sub_pt_vec_rnx_into", "ckks_mul_add_pt_const_rnx_into", "ckks_mul_sub_pt_const_rnx_into", "ckks_add_many", "ckks_dot_product_ct", "ckks_mul_many", "ckks_dot_product_pt_vec_rnx", "ckks_dot_product_pt_const_rnx", "ckks_dot_product_ct(mixed_log_delta)", "unsafe_form_then_normalize"];
